@@ -128,6 +128,9 @@ func Count(name string, n int64) {
 
 // Max keeps the maximum of a named gauge.
 func Max(name string, n int64) {
+	if len(name) < 4 || name[:4] != "max:" {
+		name = "max:" + name
+	}
 	mu.Lock()
 	if n > stats[name] {
 		stats[name] = n
